@@ -389,10 +389,15 @@ class MiniEval:
             return left is right or (isinstance(left, Rec) and isinstance(right, Rec) and left == right)
         if isinstance(op, ast.IsNot):
             return not (left is right or (isinstance(left, Rec) and isinstance(right, Rec) and left == right))
-        if isinstance(op, ast.In):
-            return left in right
-        if isinstance(op, ast.NotIn):
-            return left not in right
+        if isinstance(op, (ast.In, ast.NotIn)):
+            exprish = isinstance(left, Rec) or (isinstance(left, Sym) and "Expr" in left.attrs.get("$isa", ()))
+            if self.expr_compare and exprish and isinstance(right, (list, tuple)):
+                # PyTeal expressions overload ==: `x == y` builds a (truthy) Eq expression, so membership of an
+                # expression in a list of expressions is true as soon as the list is non-empty
+                res = len(right) > 0
+            else:
+                res = left in right
+            return res if isinstance(op, ast.In) else (not res)
         try:
             if isinstance(op, ast.Lt):
                 return left < right
